@@ -11,6 +11,7 @@ belongs to which component comes from the component triples, whose order is fixe
 Layout.tla and cross-checked with TLC in every run.
 """
 from fractions import Fraction as Fr
+import itertools
 import math
 
 import mpmath
@@ -143,3 +144,136 @@ def contraction_norm(sh):
     M, L = raw.shape[0], raw.shape[1]
     diag = np.array([[raw[m, a, m, a] for a in range(L)] for m in range(M)])
     return 1.0 / np.sqrt(diag)
+
+
+# =============================================================================================== Coulomb
+def boys(mmax, T):
+    """F_m(T) = Int_0^1 t^(2m) exp(-T t^2) dt for m = 0..mmax (mpmath, 40 digits) as floats."""
+    T = mpmath.mpf(T.numerator) / T.denominator if isinstance(T, Fr) else mpmath.mpf(T)
+    out = []
+    for m in range(mmax + 1):
+        if T == 0:
+            out.append(1.0 / (2 * m + 1))
+        elif T < 1e-6:
+            # series: sum_k (-T)^k / (k! (2m+2k+1))
+            v = sum((-T) ** k / (mpmath.factorial(k) * (2 * m + 2 * k + 1)) for k in range(12))
+            out.append(float(v))
+        else:
+            out.append(float(mpmath.gammainc(m + mpmath.mpf("0.5"), 0, T) / (2 * T ** (m + mpmath.mpf("0.5")))))
+    return np.array(out)
+
+
+def _polytab(tab, deg):
+    """nested lists of polynomials (lists of Fractions) -> float array [..., deg+1]."""
+    def rec(t):
+        if t and isinstance(t[0], Fr) or (t and isinstance(t[0], int)):
+            v = [float(x) for x in t] + [0.0] * (deg + 1 - len(t))
+            return v[:deg + 1]
+        return [rec(x) for x in t]
+    return np.array(rec(tab))
+
+
+def _conv(a, b, deg):
+    out = np.zeros(a.shape[:-1] + (deg + 1,))
+    for n in range(deg + 1):
+        for k in range(n + 1):
+            out[..., n] += a[..., k] * b[..., n - k]
+    return out
+
+
+def _mpf(x):
+    return mpmath.mpf(x.numerator) / x.denominator
+
+
+def raw_block_1e(sh1, sh2, charges, tables_hook=None):
+    """<a| -q/|r-R| |b> for un-normalised contractions: (M1, L1, M2, L2, Ncharges) and abs-sums.
+    charges: list of (position triple of Fractions, charge float)."""
+    s1, s2 = shell_exact(sh1), shell_exact(sh2)
+    la, lb = s1["l"], s2["l"]
+    D = la + lb
+    c1, c2 = np.array(s1["comps"]), np.array(s2["comps"])
+    n1 = np.array([comp_norm(c) for c in s1["comps"]])
+    n2 = np.array([comp_norm(c) for c in s2["comps"]])
+    ab2 = sum((a - b) ** 2 for a, b in zip(s1["A"], s2["A"]))
+    K1, K2 = len(s1["exps"]), len(s2["exps"])
+    d1 = np.array([[float(c) for c in row] for row in s1["coeffs"]])
+    d2 = np.array([[float(c) for c in row] for row in s2["coeffs"]])
+    N = len(charges)
+    prim = np.zeros((K1, K2, len(c1), len(c2), N))
+    primabs = np.zeros_like(prim)
+    for i in range(K1):
+        for j in range(K2):
+            a, b = s1["exps"][i], s2["exps"][j]
+            p = a + b
+            w = float(rad_norm(a, la) * rad_norm(b, lb) * 2 * mpmath.pi / _mpf(p) * mpmath.exp(-_mpf(a * b / p * ab2)))
+            for n, (R, qch) in enumerate(charges):
+                tabs = []
+                T = Fr(0)
+                for x in range(3):
+                    q = exact.Axis(a, b, s1["A"][x], s2["A"][x], R[x])
+                    tabs.append(exact.rys1d_table(q, la, lb))
+                    T += p * q.pc ** 2
+                if tables_hook is not None:
+                    tables_hook(i, j, n, tabs)
+                ft = [_polytab(t, D) for t in tabs]          # [jb, ia, deg]
+                F = boys(D, T)
+                px = ft[0][c2[None, :, 0], c1[:, None, 0]]
+                py = ft[1][c2[None, :, 1], c1[:, None, 1]]
+                pz = ft[2][c2[None, :, 2], c1[:, None, 2]]
+                poly = _conv(_conv(px, py, D), pz, D)
+                polyabs = _conv(_conv(np.abs(px), np.abs(py), D), np.abs(pz), D)
+                prim[i, j, :, :, n] = -qch * w * (poly @ F)
+                primabs[i, j, :, :, n] = abs(qch) * w * (polyabs @ F)
+    nn = (n1[:, None] * n2[None, :])[None, None, :, :, None]
+    raw = np.einsum("im,jn,ijabe->manbe", d1, d2, prim * nn)
+    rawabs = np.einsum("im,jn,ijabe->manbe", np.abs(d1), np.abs(d2), primabs * nn)
+    return raw, rawabs
+
+
+def raw_block_2e(shs, tables_hook=None, mp=False):
+    """(ab|cd) in chemists' order for un-normalised contractions:
+    (M1, L1, M2, L2, M3, L3, M4, L4) and abs-sums."""
+    S = [shell_exact(s) for s in shs]
+    ls = [s["l"] for s in S]
+    D = sum(ls)
+    comps = [np.array(s["comps"]) for s in S]
+    cn = [np.array([comp_norm(c) for c in s["comps"]]) for s in S]
+    Ks = [len(s["exps"]) for s in S]
+    ds = [np.array([[float(c) for c in row] for row in s["coeffs"]]) for s in S]
+    ab2 = sum((a - b) ** 2 for a, b in zip(S[0]["A"], S[1]["A"]))
+    cd2 = sum((a - b) ** 2 for a, b in zip(S[2]["A"], S[3]["A"]))
+    Ls = [len(c) for c in comps]
+    prim = np.zeros(Ks + Ls)
+    primabs = np.zeros_like(prim)
+    g = [comps[n][:, :] for n in range(4)]
+    for i, j, k, l in itertools.product(*[range(K) for K in Ks]):
+        a, b, c, d = S[0]["exps"][i], S[1]["exps"][j], S[2]["exps"][k], S[3]["exps"][l]
+        p, q = a + b, c + d
+        w = rad_norm(a, ls[0]) * rad_norm(b, ls[1]) * rad_norm(c, ls[2]) * rad_norm(d, ls[3])
+        w *= 2 * mpmath.pi ** mpmath.mpf("2.5") / (_mpf(p) * _mpf(q) * mpmath.sqrt(_mpf(p + q)))
+        w *= mpmath.exp(-_mpf(a * b / p * ab2)) * mpmath.exp(-_mpf(c * d / q * cd2))
+        w = float(w)
+        tabs = []
+        T = Fr(0)
+        for x in range(3):
+            ax = exact.Axis2(a, b, c, d, S[0]["A"][x], S[1]["A"][x], S[2]["A"][x], S[3]["A"][x])
+            tabs.append(exact.rys2d_table(ax, *ls))
+            T += p * q / (p + q) * ax.pq ** 2
+        if tables_hook is not None:
+            tables_hook((i, j, k, l), tabs)
+        ft = [_polytab(t, D) for t in tabs]      # [i, j, k, l, deg]
+        F = boys(D, T)
+
+        def gather(x):
+            return ft[x][g[0][:, None, None, None, x], g[1][None, :, None, None, x],
+                         g[2][None, None, :, None, x], g[3][None, None, None, :, x]]
+        px, py, pz = gather(0), gather(1), gather(2)
+        poly = _conv(_conv(px, py, D), pz, D)
+        polyabs = _conv(_conv(np.abs(px), np.abs(py), D), np.abs(pz), D)
+        prim[i, j, k, l] = w * (poly @ F)
+        primabs[i, j, k, l] = w * (polyabs @ F)
+    nn = (cn[0][:, None, None, None] * cn[1][None, :, None, None] * cn[2][None, None, :, None] * cn[3][None, None, None, :])
+    raw = np.einsum("im,jn,ko,lp,ijklabcd->manbocpd", ds[0], ds[1], ds[2], ds[3], prim * nn)
+    rawabs = np.einsum("im,jn,ko,lp,ijklabcd->manbocpd", np.abs(ds[0]), np.abs(ds[1]), np.abs(ds[2]), np.abs(ds[3]),
+                       primabs * nn)
+    return raw, rawabs
